@@ -427,98 +427,36 @@ def _compress(lines):
 
 
 def _check_dispatch_loop(repo, r5):
+    """The receive loop dispatches a message to the handler registered for its 'type', with its 'content', and only when
+    the message's 'sid' equals this service's sid - decided on derivation terms and must-facts, not on local names."""
+    from ..query import Q
     fi = repo.func(F.SRV, "Service._recv_message")
-    cfg = cfg_of(fi.node)
-    # dispatch node: a call whose func is a subscript of self.recv_msg_handler
+    q = Q(repo, fi)
+    SELF = ("param", "self")
+    msgs = [t for _c, _n, t in q.calls() if t[0] == "call" and t[1] == "pickle.loads"]
     disp = []
-    for n in cfg.nodes:
-        if n.ast is None:
-            continue
-        for c in calls_in_order(n.ast if n.kind != "stmt" else n.stmt):
-            if isinstance(c.func, ast.Subscript) and dotted(c.func.value) == "self.recv_msg_handler":
-                disp.append((n, c))
-            elif isinstance(c.func, ast.Call) and dotted(c.func.func) == "self.recv_msg_handler.get":
-                disp.append((n, c))
-    if not r5.require(len(disp) >= 1, fi, "dispatch call", "no dispatch through self.recv_msg_handler found"):
+    for c, nid, t in q.calls():
+        if t[0] == "calldyn":
+            tgt = t[1]
+            if tgt[0] == "sub" and tgt[1] == ("attr", SELF, "recv_msg_handler"):
+                disp.append((c, nid, t, tgt[2]))
+            elif tgt[0] == "mcall" and tgt[1] == ("attr", SELF, "recv_msg_handler") and tgt[2] == "get" and tgt[3]:
+                disp.append((c, nid, t, tgt[3][0]))
+    if not r5.require(len(disp) >= 1 and bool(msgs), fi, "dispatch call", "no dispatch through self.recv_msg_handler found"):
         return
-    # names bound to the message's sid / type
-    sid_names, type_names = set(), set()
-    for st in ast.walk(fi.node):
-        if isinstance(st, ast.Assign) and len(st.targets) == 1 and isinstance(st.targets[0], ast.Name):
-            v = st.value
-            key = None
-            if isinstance(v, ast.Call) and isinstance(v.func, ast.Attribute) and v.func.attr == "get" and v.args:
-                key = v.args[0]
-            elif isinstance(v, ast.Subscript):
-                key = v.slice
-            if isinstance(key, ast.Constant):
-                if key.value == "sid":
-                    sid_names.add(st.targets[0].id)
-                if key.value == "type":
-                    type_names.add(st.targets[0].id)
+    MSG = msgs[0]
 
-    def atom_val(e):
-        # value of an atom under "message carries a foreign sid, all fields present"
-        if isinstance(e, ast.Compare) and len(e.ops) == 1:
-            l, r = e.left, e.comparators[0]
-            sides = {dotted(l), dotted(r)}
-            if "self.sid" in sides and (sides & sid_names):
-                if isinstance(e.ops[0], (ast.NotEq, ast.IsNot)):
-                    return True
-                if isinstance(e.ops[0], (ast.Eq, ast.Is)):
-                    return False
-            if isinstance(r, ast.Constant) and r.value is None:
-                if isinstance(e.ops[0], ast.Is):
-                    return False
-                if isinstance(e.ops[0], ast.IsNot):
-                    return True
-        return None
-
-    def ev(e):
-        if isinstance(e, ast.BoolOp):
-            vals = [ev(v) for v in e.values]
-            if isinstance(e.op, ast.Or):
-                if any(v is True for v in vals):
-                    return True
-                return False if all(v is False for v in vals) else None
-            if any(v is False for v in vals):
-                return False
-            return True if all(v is True for v in vals) else None
-        if isinstance(e, ast.UnaryOp) and isinstance(e.op, ast.Not):
-            v = ev(e.operand)
-            return None if v is None else (not v)
-        return atom_val(e)
-
-    # reachability of the dispatch under a foreign sid: follow only feasible branch edges
-    def follow(a, b, lab):
-        n = cfg.nodes[a]
-        if n.kind == "test" and isinstance(lab, bool):
-            v = ev(n.ast)
-            if v is not None and v != lab:
-                return False
-        return True
-
-    seen = {cfg.entry}
-    stack = [cfg.entry]
-    while stack:
-        a = stack.pop()
-        for b, lab in cfg.succ[a]:
-            if not follow(a, b, lab) or b in seen:
-                continue
-            seen.add(b)
-            stack.append(b)
-    for n, c in disp:
-        if n.id in seen:
+    def field(k):
+        return [("mcall", MSG, "get", (("const", k),), ()), ("sub", MSG, ("const", k))]
+    for c, nid, t, key in disp:
+        own = any(f[0] == "==" and f[-1] is True and ("attr", SELF, "sid") in f[1:3] and any(x in field("sid") for x in f[1:3]) for f in q.facts_terms(nid))
+        if not own:
             r5.fail_fn(fi, c, "dispatch reachable for foreign sid",
                        "a message whose sid differs from this service's sid reaches the handler dispatch")
         else:
-            r5.ok({"function": fi.qual, "dispatch_line": n.line, "rule": "unreachable when sid != self.sid"})
-        # the dispatch key is the message's type
-        key = c.func.slice if isinstance(c.func, ast.Subscript) else (c.func.args[0] if c.func.args else None)
-        r5.require(isinstance(key, ast.Name) and key.id in type_names, fi, "dispatch key",
-                   "the dispatch key is not the message's 'type' field", c)
-        # the handler receives the content
-        r5.require(len(c.args) >= 1, fi, "dispatch arguments", "the handler is called without the message content", c)
+            r5.ok({"function": fi.qual, "dispatch_line": getattr(c, "lineno", 0), "rule": "reached only with message sid == self.sid"})
+        r5.require(key in field("type"), fi, "dispatch key", "the dispatch key is not the message's 'type' field", c)
+        r5.require(len(t[2]) >= 1 and t[2][0] in field("content"), fi, "dispatch arguments", "the handler is not called with the message content", c)
 
 
 def _check_loader_and_echo(repo, r3, states):
